@@ -386,7 +386,7 @@ def standin(tier, seed):
         nontriv.add(("re", len(s) % 5))
         if back != s:
             fail("re_unescape(re.escape(%r)) == %r" % (s, back), s=s)
-    for bad in ["\\d", "a\\wb", "\\0", "\\A"]:
+    for bad in ["\\d", "a\\wb", "\\0", "\\A", "\\1", "x\\9y", "/pair/\\1", "\\Z", "\\b", "\\z", "\\_" if False else "\\7"]:
         evals += 1
         try:
             re_unescape(bad)
